@@ -20,7 +20,7 @@ fn arr_i16(t: &mut Tape, maxlen: usize) -> Vec<i16> {
 }
 
 pub fn run(t: &mut Tape, ctx: &mut Ctx) -> CheckResult {
-    let maxlen = if ctx.tier == Tier::Quick { 12 } else { 20 };
+    let maxlen = ctx.mlen(if ctx.tier == Tier::Quick { 12 } else { 20 });
     match t.choice(10) {
         0 => basic(t, ctx, maxlen),
         1 => ranges(t, ctx, maxlen),
@@ -57,7 +57,7 @@ fn basic(t: &mut Tape, ctx: &mut Ctx, maxlen: usize) -> CheckResult {
         ensure!(ctx, ax.get(i) == v, "basic", "get({i}) = {} want {v}", ax.get(i));
     }
     // usize arrays: the same generic primitives
-    let u = arr_usize(t, maxlen, 9);
+    let u = arr_usize(t, maxlen, ctx.vb(9));
     let au: A<usize> = mk(u.clone());
     ensure!(ctx, un(&au.concatenate(&au)).len() == 2 * u.len(), "basic", "usize concatenate length");
     if x.len() >= 2 {
@@ -247,7 +247,7 @@ fn scatter_assign(t: &mut Tape, ctx: &mut Ctx, maxlen: usize) -> CheckResult {
 
 fn sorting(t: &mut Tape, ctx: &mut Ctx, maxlen: usize) -> CheckResult {
     ctx.class("group:sorting");
-    let x = arr_usize(t, maxlen, 5);
+    let x = arr_usize(t, maxlen, ctx.vb(5));
     let ax: A<usize> = mk(x.clone());
     ctx.set_dump(format!("x = {:?}", x));
     ctx.sub("argsort");
@@ -298,7 +298,7 @@ fn sorting(t: &mut Tape, ctx: &mut Ctx, maxlen: usize) -> CheckResult {
 
 fn sums(t: &mut Tape, ctx: &mut Ctx, maxlen: usize) -> CheckResult {
     ctx.class("group:sums");
-    let x = arr_usize(t, maxlen, 6);
+    let x = arr_usize(t, maxlen, ctx.vb(6));
     let ax: A<usize> = mk(x.clone());
     ctx.set_dump(format!("x = {:?}", x));
     ctx.sub("max-sum-cumsum");
@@ -384,7 +384,7 @@ fn repeat_arange(t: &mut Tape, ctx: &mut Ctx, maxlen: usize) -> CheckResult {
 
 fn arithmetic(t: &mut Tape, ctx: &mut Ctx, maxlen: usize) -> CheckResult {
     ctx.class("group:arithmetic");
-    let x = arr_usize(t, maxlen, 30);
+    let x = arr_usize(t, maxlen, ctx.vb(30));
     let y: Vec<usize> = x.iter().map(|_| t.choice(9)).collect();
     let (ax, ay): (A<usize>, A<usize>) = (mk(x.clone()), mk(y.clone()));
     ctx.set_dump(format!("x = {:?} y = {:?}", x, y));
@@ -423,7 +423,7 @@ fn arithmetic(t: &mut Tape, ctx: &mut Ctx, maxlen: usize) -> CheckResult {
 
 fn counting(t: &mut Tape, ctx: &mut Ctx, maxlen: usize) -> CheckResult {
     ctx.class("group:counting");
-    let size = t.range(0, 8);
+    let size = t.range(0, ctx.vb(8));
     let x = if size == 0 { vec![] } else { arr_usize(t, maxlen, size) };
     let ax: A<usize> = mk(x.clone());
     ctx.set_dump(format!("x = {:?} size = {size}", x));
